@@ -192,14 +192,15 @@ pub fn dispatch_target<F: TargetFn>(name: &str, f: F) -> Option<F::Out> {
     }
 }
 fn n_targets() -> u64 {
-    (ALL_DOCS.len() + SOURCES.len()) as u64
+    n_docs() + SOURCES.len() as u64
 }
 fn target_name(i: u64) -> &'static str {
+    let docs = enum_docs();
     let i = i as usize;
-    if i < ALL_DOCS.len() {
-        ALL_DOCS[i]
+    if i < docs.len() {
+        docs[i]
     } else {
-        SOURCES[i - ALL_DOCS.len()]
+        SOURCES[i - docs.len()]
     }
 }
 
